@@ -471,7 +471,15 @@ def r3(ctx):
     sv_store = [n for n in walk_own(m.node) if isinstance(n, ast.Assign) and U(n.targets[0]) == "self.selection_vector"]
     rows_ok = rows == "self.selection_vector" or (len(sv_store) == 1 and rows == U(sv_store[0].value) and rows.isidentifier() and rows in full_env)
     label = U(inline(lab[0].value, {k: v for k, v in full_env.items() if common.is_path(v)}))
-    ctx.check("R3", f"{m.site()}::label", rows_ok and label in ("self.plate_name", "other.plate_name"),
+    label_ok = label in ("self.plate_name", "other.plate_name")
+    if not label_ok:
+        # the property spelled out: the label of the first row of one of the plates (or of the merged rows, whose first row belongs to one of them)
+        le = inline(lab[0].value, {k: v for k, v in full_env.items()})
+        if isinstance(le, ast.Subscript) and U(le.slice) == "0" and isinstance(le.value, ast.Subscript) and unalias(U(le.value.value)) == "self.screen.plate_names":
+            sel = U(le.value.slice).replace(" ", "")
+            merged = {"self.selection_vector|other.selection_vector", "other.selection_vector|self.selection_vector"}
+            label_ok = sel in ("self.selection_vector", "other.selection_vector") or sel in merged or (rows.isidentifier() and sel == U(full_env.get(rows)).replace(" ", "") and sel in merged)
+    ctx.check("R3", f"{m.site()}::label", rows_ok and label_ok,
               "relabels exactly the merged rows with an existing plate label",
               f"relabels rows `{U(lab[0].targets[0].slice)}` with `{U(lab[0].value)}`")
 
